@@ -361,6 +361,23 @@ def build(tier="quick", seed=0):
                         lambda p: (p.value == ("old", "new", "new", "new", "through the view", "through the view"), f"g.x before / after the member was assigned / in _asdict() / in extend_record(g) / member after g.x = ... / g.x: {p.value}")),
                         replay=lambda w: {"call": "c15_grouped_view", "args": {}}, functions=FU, mode="concrete history on one grouped record"))
 
+    # replace-style copies name fields by keyword: a field may be called like the method's own first parameter
+    for kind in ("plain", "grouped"):
+        name = f"C15.replace[a field named 'self', {kind} record]"
+
+        def th_rself(kind=kind):
+            S = it.call(RD, ["c15/rs", [("string", "self"), ("varint", "n")]], {})
+            r = it.call(S, [], {"self": "old", "n": 4})
+            src = r if kind == "plain" else it.call(base.g["GroupedRecord"], ["c15/rg", [r]], {})
+            try:
+                c = it.call(it.getattr_(src, "_replace"), [], {"self": "new"})
+            except PyRaise as e:
+                return "raise " + e.cls_name
+            return it.unbase(it.getattr_(c, "self")), it.unbase(it.getattr_(c, "n")), it.unbase(it.getattr_(src, "self"))
+
+        pack.add(Obligation(name, lambda tier, name=name, th_rself=th_rself: prove_paths(name, th_rself, lambda p: (p.value == ("new", 4, "old"), f"_replace(self='new') on a record with the fields self='old', n=4: {p.value!r} (copy.self, copy.n, original.self)")),
+                            replay=lambda w, kind=kind: {"call": "c15_replace_self", "args": {"kind": kind}}, functions=FU + ("flow.record.base:Record._replace", "flow.record.base:GroupedRecord._replace"), mode="representative record"))
+
     # a copy into another descriptor (RecordDescriptor.init_from_record) takes the values of the fields both sides have - from a plain record and from a grouped one (its flat view, first member wins)
     x = z3.Int("copy_x")
     for kind in ("plain", "grouped", "grouped in grouped"):
